@@ -943,7 +943,7 @@ def _run_traces(ctx, n_models, n_k, kpath, n_x=0, planck=False, require_cover=Fa
         cls, detail, vec = meta[ev['id']]
         clause = 'planck_table' if ev['ev'] == 'planck' else 'trace_' + ev['ev']
         ctx.verdict(clause, ev['id'] not in badids, cls=cls, detail='TLC rejected event %r (%s)' % (ev, detail), vector=vec)
-    ctx.add_sample(dict(trace_event=[e for e in events if e['ev'] == 'bounds'][0]))
+    ctx.add_sample(dict(trace_event=([e for e in events if e['ev'] == 'bounds'] or events)[0]))
     # canary
     good = [e for e in events if e['id'] not in badids and e['ev'] == 'bounds']
     if not good:
